@@ -64,6 +64,7 @@ type AssertStat struct {
 	Checked    int `json:"checked"`
 	Nontrivial int `json:"nontrivial"`
 	Violated   int `json:"violated"`
+	Folded     int `json:"folded_over_symbolic_inputs"`
 }
 
 type RunConfig struct {
@@ -574,6 +575,9 @@ func (e *Engine) doAssert(cond *Term, id string) {
 		return
 	}
 	if cond == e.tt.True {
+		if len(e.symvars) > 0 {
+			st.Folded++
+		}
 		if len(e.res.Samples) < 3 && len(e.symvars) > 0 {
 			e.res.Samples = append(e.res.Samples, fmt.Sprintf("assert %s: condition over %d symbolic inputs normalised to true (both sides are the same term), |pc|=%d", id, len(e.symvars), len(e.pc)))
 		}
